@@ -726,7 +726,10 @@ static Type *copy_vla_type(Type *ty) {
 static Type *declarator(Token **rest, Token *tok, Type *ty) {
   ty = pointers(&tok, tok, ty);
 
-  if (equal(tok, "(")) {
+  // "(" followed by a type name or by ")" begins the parameter list of
+  // an unnamed function declarator, not a nested declarator (C11
+  // 6.7.6.3p11): `void f(int (void))`, `void g(int ())`.
+  if (equal(tok, "(") && !is_typename(tok->next) && !equal(tok->next, ")")) {
     Token *start = tok;
     Type dummy = {};
     declarator(&tok, start->next, &dummy);
@@ -762,7 +765,8 @@ static Type *declarator(Token **rest, Token *tok, Type *ty) {
 static Type *abstract_declarator(Token **rest, Token *tok, Type *ty) {
   ty = pointers(&tok, tok, ty);
 
-  if (equal(tok, "(")) {
+  // "(" followed by a type name or by ")" begins a parameter list.
+  if (equal(tok, "(") && !is_typename(tok->next) && !equal(tok->next, ")")) {
     Token *start = tok;
     Type dummy = {};
     abstract_declarator(&tok, start->next, &dummy);
